@@ -42,6 +42,7 @@ func treeOddKeys(r *R) {
 	guard := func(op string, f func()) (ok bool) {
 		defer func() {
 			if p := recover(); p != nil {
+				passThrough(p)
 				fail("panic/"+op, "%s panicked with slice keys: %v", op, p)
 				ok = false
 			}
